@@ -153,6 +153,12 @@ class WorldScenario:
         return [(k, d, "-backend-tracked.json" in d or "spec-hashes.json" in d or (k == "sock:send" and '"close"' in d))
                 for k, d in seam_log]
 
+    @staticmethod
+    def _draw_nested(r):
+        """Somebody looks at the project from a second terminal while the run is submitting: a complete read-only
+        invocation before the i-th submission."""
+        return [[1 + r.randrange(4), r.pick([["status"], ["status"], ["run", "--dry-run"], ["status", "-f", "summary"]])]]
+
     def _seam_estimate(self, w):
         """About as many seam events as a `gwf run` would have right now: the queries, three per submission
         (command, journal open, journal write) and the final saves."""
@@ -238,7 +244,10 @@ class WorldScenario:
         add("status_filtered", {"op": "status_filtered", "cwd": cwd, "patterns": self._patterns(w, r),
                                 "status": [r.pick(STATUS_NAMES) for _ in range(r.pick([0, 1, 1, 2]))],
                                 "endpoints": r.chance(0.3), "format": r.pick(["default", "default", "summary"])})
-        add("run", {"op": "gwf", "argv": ["run"] + self._patterns(w, r), "cwd": cwd})
+        run_op = {"op": "gwf", "argv": ["run"] + self._patterns(w, r), "cwd": cwd}
+        if pf.get("p_nested") and r.chance(pf["p_nested"]):
+            run_op["nested"] = self._draw_nested(r)
+        add("run", run_op)
         add("dry_run", {"op": "gwf", "argv": ["run", "--dry-run"] + self._patterns(w, r), "cwd": cwd})
         add("triple", {"op": "triple", "patterns": self._patterns(w, r), "cwd": cwd})
         add("gwf_cancel", {"op": "gwf", "argv": ["cancel", "-f"] + self._patterns(w, r), "cwd": cwd})
@@ -249,8 +258,10 @@ class WorldScenario:
             fargv = {"run": ["run"], "status": ["status"], "cancel": ["cancel", "-f"]}[fcmd] + \
                 (self._patterns(w, r) if fcmd != "status" else [])
             after_fault = w.last_gwf_faulted
-            add("faulted", {"op": "gwf", "argv": fargv, "cwd": cwd, "fault": self._draw_fault(w, r, fcmd)},
-                4.0 if after_fault else 1.0)
+            fop = {"op": "gwf", "argv": fargv, "cwd": cwd, "fault": self._draw_fault(w, r, fcmd)}
+            if fcmd == "run" and pf.get("p_nested") and r.chance(pf["p_nested"]):
+                fop["nested"] = self._draw_nested(r)
+            add("faulted", fop, 4.0 if after_fault else 1.0)
         if w.cluster is not None:
             cl = w.cluster
             ours = [j for j in cl.jobs.values() if not j.foreign]
@@ -336,7 +347,12 @@ class WorldScenario:
         kind = op["op"]
         w.trace.log("op", **op)
         if kind == "gwf":
-            self._gwf(w, op)
+            if op.get("nested"):
+                w.nested_at = {int(i): list(a) for i, a in op["nested"]}
+            try:
+                self._gwf(w, op)
+            finally:
+                w.nested_at = None
         elif kind == "triple":
             self._triple(w, op)
         elif kind == "status_filtered":
